@@ -4,7 +4,7 @@ fingerprint of the binding site.  The sidecar invariants were written with THESE
 current source positionally to them when (and only when) the binding sites still match, so that a pure rename of a local is not a change."""
 import ast, json, os, sys
 sys.path.insert(0, os.path.dirname(os.path.dirname(os.path.abspath(__file__))))
-from pyvc.source import Source, local_bindings
+from pyvc.source import Source, local_bindings, loop_shape
 
 src = Source(sys.argv[1] if len(sys.argv) > 1 else "/repo")
 out = {}
@@ -15,3 +15,9 @@ for (m, q), fns in src.functions.items():
             out[f"{m}:{q}#{k}"] = b
 json.dump(out, open(os.path.join(os.path.dirname(os.path.dirname(os.path.abspath(__file__))), "contracts", "local_names.json"), "w"), indent=0, sort_keys=True)
 print(len(out), "functions with locals")
+shapes = {}
+for (m, q), fns in src.functions.items():
+    for k, fn in enumerate(fns):
+        shapes[f"{m}:{q}#{k}"] = loop_shape(fn)
+json.dump(shapes, open(os.path.join(os.path.dirname(os.path.dirname(os.path.abspath(__file__))), "contracts", "loop_shapes.json"), "w"), indent=0, sort_keys=True)
+print(len(shapes), "functions with loop shapes")
